@@ -287,3 +287,162 @@ theorem probEvent_district (M : Model) (ν : BaseValues) (hM : Compatible M G) (
 end
 
 end Y0.Cf
+
+namespace Y0.Cf
+open Relation MG Fscm
+
+/-! ## lines 4–9 and the induction -/
+
+/-- the names line 6 / line 9 sum over: the non-self-intervened variables that are not in the event -/
+theorem free_spec {G : MG Name} {w : World} {ev : Event} {g : MG Var} {nev : Event} (facts : SWFacts G w ev g nev)
+    (cf : MG Var) (hcf : ∀ n, (n ∈ cf.nodes ∧ isNotSelfIntervened n = true) ↔ n ∈ (nsiSubgraph g).nodes) :
+    let rs := (upgradeOrdering ((freeVariables cf nev).map Var.plain)).map (·.name)
+    rs.Nodup ∧ ∀ V, V ∈ rs ↔ V ∈ (nsiSubgraph g).nodes.map (·.name) ∧ V ∉ ev.keys.map (·.name) := by
+  intro rs
+  obtain ⟨h1, h2⟩ := ranges_spec (freeVariables cf nev)
+  refine ⟨h1, fun V => ?_⟩
+  rw [h2 V]
+  unfold freeVariables
+  simp only [diff', List.mem_filter, mem_dedup', decide_eq_true_eq]
+  have hk : V ∈ List.map (fun x => x.name) nev.keys ↔ V ∈ ev.keys.map (·.name) := facts.keyNames V
+  constructor
+  · rintro ⟨hV, hVk⟩
+    refine ⟨?_, fun h => hVk (hk.2 h)⟩
+    obtain ⟨n, hn, rfl⟩ := List.mem_map.1 hV
+    rw [List.mem_filter] at hn
+    exact List.mem_map.2 ⟨n, (hcf n).1 hn, rfl⟩
+  · rintro ⟨hV, hVk⟩
+    refine ⟨?_, fun h => hVk (hk.1 h)⟩
+    obtain ⟨n, hn, rfl⟩ := List.mem_map.1 hV
+    exact List.mem_map.2 ⟨n, List.mem_filter.2 ((hcf n).2 hn), rfl⟩
+
+section
+variable (M : Model) (ν : BaseValues) (dom : Name → Nat) {G : MG Name}
+
+theorem lines4to9_sound_frag (hM : Compatible M G) (hn : ∀ pmf ∈ M.noise, pmf.sum = 1)
+    (hdom : ∀ u d v, solve M u d v < dom v) (hG : G.WF) (hdl : ∀ e ∈ G.di, e.1 ≠ e.2) (hbl : ∀ e ∈ G.bi, e.1 ≠ e.2)
+    {ordf : List World → List World} (hord : PermOrder ordf) {dordf : List Var → List Var} (hdo : PermDistrict dordf)
+    (rec : Event → Except Err Expr)
+    (hrec : ∀ w' ev' e', Frag G w' ev' → rec ev' = .ok e' → ∀ τ, cden M ν dom e' τ = probEvent M (nuOf ν τ) ev')
+    (w : World) (ev : Event) (hfr : Frag G w ev) (hk : KeysNSI ev) (e : Expr)
+    (h : idStarLines4to9 ordf dordf G rec ev = .ok e) (σ : Valuation) :
+    cden M ν dom e σ = probEvent M (nuOf ν σ) ev := by
+  unfold49 at h
+  cases hcg : makeCounterfactualGraph ordf G ev with
+  | error err => rw [hcg] at h; cases h
+  | ok v =>
+    rw [hcg] at h
+    simp only at h
+    rcases v with ⟨cf, new⟩
+    obtain ⟨nev, rfl, facts⟩ := frag_facts hord hG hdl hbl hfr hk.1 hcg
+    simp only at h
+    have hkeysnsi : ∀ k ∈ nev.keys, isNotSelfIntervened k = true := by
+      obtain ⟨⟨_, hnsi⟩, _⟩ := cg_event_inv hord.good hcg hk hfr.good.ok
+      intro k hkk
+      obtain ⟨v, hv⟩ := (mem_keys_iff nev k).1 hkk
+      exact hnsi _ hv
+    have hT : ∀ V, V ∈ (nsiSubgraph cf).nodes.map (·.name) ↔ ∃ n ∈ (nsiSubgraph cf).nodes, n.name = V := by
+      intro V; simp only [List.mem_map]
+    cases hc : isConnected (nsiSubgraph cf) with
+    | error err => rw [hc] at h; cases h
+    | ok c =>
+      rw [hc] at h
+      simp only at h
+      split at h
+      · -- line 6
+        cases hevs : eventsOfEachDistrict dordf cf nev with
+        | error err => rw [hevs] at h; cases h
+        | ok evs =>
+          rw [hevs] at h
+          simp only at h
+          split at h
+          · cases h
+          · cases hm : evs.mapM rec with
+            | error err => rw [hm] at h; cases h
+            | ok fs =>
+              rw [hm] at h
+              simp only [Except.ok.injEq] at h
+              subst h
+              obtain ⟨hrsnd, hrsm⟩ := free_spec facts cf (fun n => ((mem_nsiSubgraph_iff cf n)).symm)
+              rw [cden_sumSafe]
+              rw [← sumOver_world M ν dom hdom facts hfr hkeysnsi _ hT _ hrsnd hrsm σ]
+              apply sumOver_congr
+              intro τ
+              rw [cden_productSafe]
+              -- factor by factor
+              have hstep1 : fs.map (fun f => cden M ν dom f τ) = evs.map (fun x => probEvent M (nuOf ν τ) x) := by
+                apply mapM_map_eq rec evs fs hm
+                intro x hx f hf
+                -- `x` is the event of some district
+                have hxD : ∃ D ∈ (nsiSubgraph cf).districts, eventsOfDistrict cf (dordf D) nev = .ok x := by
+                  unfold eventsOfEachDistrict at hevs
+                  exact mapM_ok_mem _ _ _ hevs x hx
+                obtain ⟨D, hD, hDx⟩ := hxD
+                obtain ⟨pillow, _, _, hfrx⟩ := frag_of_district hord hdo hG hdl hbl hfr.good hcg facts hevs D hD x hDx
+                exact hrec _ x f hfrx hf τ
+              have hstep2 : evs.map (fun x => probEvent M (nuOf ν τ) x) =
+                  (nsiSubgraph cf).districts.map (fun D => mass M.noise (fun u => (D.map (·.name)).all (localOK M τ u))) := by
+                unfold eventsOfEachDistrict at hevs
+                apply mapM_map_eq _ _ _ hevs
+                intro D hD x hDx
+                have hevs' : eventsOfEachDistrict dordf cf nev = .ok evs := hevs
+                obtain ⟨pillow, hp, hxeq, _⟩ := frag_of_district hord hdo hG hdl hbl hfr.good hcg facts hevs' D hD x hDx
+                exact probEvent_district M ν hM facts hdo D hD pillow hp x hxeq τ
+              rw [hstep1, hstep2, ← mass_districts M hM hn facts _ hT τ]
+              rw [prob_eq_local M hM.topoOrder _ τ _
+                (localSet_world M ν hM facts hfr.wUnst _ hT w (fun _ h => h) (fun _ _ h => h) τ)]
+      · split at h
+        · cases h
+        · -- line 9
+          cases h9 : line9 (nsiSubgraph cf) with
+          | error err => rw [h9] at h; cases h
+          | ok e9 =>
+            rw [h9] at h
+            simp only [Except.ok.injEq] at h
+            subst h
+            have hsubnodes : ∀ n, (n ∈ (nsiSubgraph cf).nodes ∧ isNotSelfIntervened n = true) ↔ n ∈ (nsiSubgraph cf).nodes :=
+              fun n => ⟨fun h => h.1, fun h => ⟨h, ((mem_nsiSubgraph_iff cf n).1 h).2⟩⟩
+            obtain ⟨hrsnd, hrsm⟩ := free_spec facts (nsiSubgraph cf) hsubnodes
+            rw [cden_sumSafe]
+            rw [← sumOver_world M ν dom hdom facts hfr hkeysnsi _ hT _ hrsnd hrsm σ]
+            apply sumOver_congr
+            intro τ
+            exact line9_leaf M ν dom hM facts hfr e9 h9 τ
+
+/-- **ID\* is sound on the fragment** (all fuels, all readings of the free symbols) -/
+theorem idStarFuel_sound_frag (hM : Compatible M G) (hn : ∀ pmf ∈ M.noise, pmf.sum = 1)
+    (hdom : ∀ u d v, solve M u d v < dom v) (hG : G.WF) (hdl : ∀ e ∈ G.di, e.1 ≠ e.2) (hbl : ∀ e ∈ G.bi, e.1 ≠ e.2)
+    {ordf : List World → List World} (hord : PermOrder ordf) {dordf : List Var → List Var} (hdo : PermDistrict dordf) :
+    ∀ (fuel : Nat) (w : World) (ev : Event) (e : Expr), Frag G w ev → idStarFuel ordf dordf G fuel ev = .ok e →
+      ∀ σ, cden M ν dom e σ = probEvent M (nuOf ν σ) ev := by
+  intro fuel
+  induction fuel with
+  | zero => intro w ev e _ h; simp only [idStarFuel] at h; cases h
+  | succ fuel ih =>
+    intro w ev e hfr h σ
+    simp only [idStarFuel] at h
+    unfold idStarBody at h
+    split at h
+    · rename_i hemp
+      simp only [Except.ok.injEq] at h
+      subst h
+      have : ev = [] := by simpa using hemp
+      subst this
+      simp only [cden, probEvent, List.map_nil]
+      exact (prob_nil M hn).symm
+    · rename_i hne
+      rw [frag_no_violation hfr] at h
+      simp only [Bool.false_eq_true, ↓reduceIte] at h
+      split at h
+      · -- line 3
+        rw [ih w _ e (frag_removeTautologies hfr) h σ]
+        exact probEvent_removeTautologies M _ ev (frag_eventWF M hM hfr)
+      · rename_i h3
+        have hk : KeysNSI ev := keysNSI_of_lines123 ev (by intro h0; simp [h0] at hne) (frag_no_violation hfr)
+          (eqv_true_of_not _ _ h3) hfr.good.ok
+        exact lines4to9_sound_frag M ν dom hM hn hdom hG hdl hbl hord hdo _
+          (fun w' ev' e' hfr' h' τ => ih w' ev' e' hfr' h' τ) w ev hfr hk e h σ
+
+end
+
+end Y0.Cf
